@@ -51,7 +51,7 @@ class OneElecKernel:
 
     def shapes(self, tier):
         out = []
-        top = 3 if tier == "quick" else 6
+        top = 4 if tier == "quick" else 6  # (2,2) is the first pair in which both horizontal-recursion indices exceed 1
         for la in range(0, 6):
             for lb in range(0, la + 1):
                 if la + lb <= top:
